@@ -753,6 +753,7 @@ def import_library(libfilepointer):
     _UNIT_LIB.base_types = dict()
     _UNIT_LIB.unit_table = dict()
     _UNIT_LIB.prefixes = dict()
+    _UNIT_LIB.prefixed_units = set()
     _UNIT_LIB.help = list()
 
     for prefix, factor in _UNIT_LIB.items('prefixes'):
@@ -928,13 +929,22 @@ def _find_unit(unit, error=False):
                     except Exception:  # maybe is a prefixed unit then
                         base_unit = item[1:].rstrip('_')
 
+                        # A prefix applies to a library unit only, never to a unit that
+                        # was itself generated by prefixing (no compound prefixes), so
+                        # that the result doesn't depend on earlier lookups.
+                        prefixed = _UNIT_LIB.prefixed_units
+
                         # check for single letter prefix before unit
-                        if (item[0] in prefixes and base_unit in unit_table):
+                        if (item[0] in prefixes and base_unit in unit_table and
+                                base_unit not in prefixed):
                             add_unit(item, prefixes[item[0]] * unit_table[base_unit])
+                            prefixed.add(item)
 
                         # check for double letter prefix before unit
-                        elif (item[0:2] in prefixes and item[2:] in unit_table):
+                        elif (item[0:2] in prefixes and item[2:] in unit_table and
+                                item[2:] not in prefixed):
                             add_unit(item, prefixes[item[0:2]] * unit_table[item[2:]])
+                            prefixed.add(item)
 
                         # no prefixes found, unknown unit
                         else:
